@@ -173,6 +173,23 @@ CHECKS["C05"] = {
     "parts": [A("relay", "./checks/c05", "TestC05", budget={"quick": 60, "thorough": 1500})],
 }
 
+CHECKS["C09"] = {
+    "level": "exploration",
+    "engine": "enum",
+    "technique": "structured bounded-exhaustive input enumeration against the real server / client inside virtual-time bubbles, with liveness probes, process-crash and wedge detection by the runner",
+    "rule": "Engine C over the Engine-A harness (no random or mutational fuzzing): (udp) every value of the first two bytes x declared length in {0,1,2,3,4,5,7,8,19,20,21,actual-1,actual,actual+1,0x7FFF,0x8000,0xFFEB..0xFFFF} x "
+            "body length in {0,4,20,1500} (thorough also 16,24,1580,1600,65487) x {magic cookie, zeros}, as UDP datagrams from a source that holds an allocation and from one that does not, plus all short datagrams; "
+            "(stream) every value of the first two bytes x 12 declared lengths x {cookie, zeros} x 4 tail lengths, each on its own stream connection (closed / left open), and every proper prefix of every valid message of a "
+            "10-message vocabulary, whole and byte-at-a-time; (messages) all 4096 STUN message types alone and with each of 253 attribute scripts (23 attribute types incl. unknown comprehension-required/optional x value lengths "
+            "{0,1,3,4,5,8,19,20,21} + overrun-by-1 + overrun-to-0xFFFF), the 8 handled types with every ordered PAIR of scripts, each unsigned and signed with valid credentials; (client) Client.HandleInbound on the header quotient "
+            "from the server address and from another address against the documented handled/error table. Oracle: no panic in any goroutine (process survival), every batch reaches quiescence (no spin / wedge), then a liveness probe: "
+            "Binding from the same source answered, a pre-existing victim allocation still relays in both directions and still refreshes. A class is (part, source, shape) -> served.",
+    "parts": [A("udp", "./checks/c09", "TestC09ServerUDP", budget={"quick": 60, "thorough": 600}, hard_timeout={"quick": 240, "thorough": 1500}),
+              A("stream", "./checks/c09", "TestC09ServerStream", budget={"quick": 60, "thorough": 600}, hard_timeout={"quick": 240, "thorough": 1500}),
+              A("messages", "./checks/c09", "TestC09Messages", budget={"quick": 60, "thorough": 900}, hard_timeout={"quick": 240, "thorough": 2000}),
+              A("client", "./checks/c09", "TestC09Client", budget={"quick": 60, "thorough": 600}, hard_timeout={"quick": 240, "thorough": 1500})],
+}
+
 ENGINES = [
     {"name": "sched", "path": "/verif/sched + /verif/shim + /verif/instr", "serves_properties": ["C18"],
      "kind_free_text": "Engine B: controlled scheduler over sources instrumented at check time (go build -overlay): stateless DFS over all schedules with at most k preemptions, prefix replay, work stealing between shard processes"},
